@@ -73,7 +73,7 @@ var c04ErrPstore = errors.New("c04: peerstore unavailable")
 
 type c04Case struct {
 	Cfg   memtpt.Config `json:"cfg"`
-	Mode  string        `json:"mode"`            // lazy | negotiated | unsupported | handler-reset | lazy-stale | pstore-error
+	Mode  string        `json:"mode"`            // lazy | negotiated | unsupported | handler-reset | lazy-stale | pstore-error | abandon-close | abandon-partial | abandon-closewrite
 	Stall string        `json:"stall,omitempty"` // what the remote stalls: "" | id-never | id-late | neg-never | neg-late
 	Fault memtpt.Fault  `json:"fault"`
 	// Fault.Kind: none | io | cancel | hostclose | connclose | gater | rcmgr | hostclosecall (Close() of the
@@ -505,6 +505,29 @@ func c04RunInBubble(cs c04Case, res *c04Result) {
 		var atReturn [2]memnet.Snap
 		returned := make(chan struct{})
 		attempt := func() string {
+			if strings.HasPrefix(cs.Mode, "abandon-") {
+				// the opener opens a stream on the connection and gives it up before (or in the middle of) proposing a
+				// protocol: the listener's negotiation ends with EOF at its first read / inside the header
+				raw, err := a.h.Network().NewStream(network.WithNoDial(nsCtx, "c04"), b.side.ID)
+				nsReturned.Store(true)
+				if err != nil {
+					h.Trace("Network().NewStream: %v", err)
+					return "newstream:" + c04ErrClass(err)
+				}
+				switch cs.Mode {
+				case "abandon-partial":
+					raw.Write([]byte("\x13/multistr")) // length prefix + half of the multistream header
+					raw.Close()
+				case "abandon-closewrite":
+					raw.CloseWrite()
+					raw.SetReadDeadline(time.Now().Add(20 * time.Second))
+					io.Copy(io.Discard, raw) // until the listener closes or resets its side (or the deadline)
+					raw.Close()
+				default: // abandon-close
+					raw.Close()
+				}
+				return "abandoned"
+			}
 			s, err := a.h.NewStream(network.WithNoDial(nsCtx, "c04"), b.side.ID, pid)
 			nsReturned.Store(true)
 			if err != nil {
@@ -788,7 +811,7 @@ func c04Cases(cfg memtpt.Config, mode, stall string, dry *c04Result, full bool) 
 // matters: the connect phase is enumerated in the first). Quick: the new modes without a stall and a
 // selection of stalled families; thorough: the cross product.
 func c04Families(thorough bool) []c04Case {
-	modes := []string{"lazy", "negotiated", "unsupported", "handler-reset", "lazy-stale", "pstore-error"}
+	modes := []string{"lazy", "negotiated", "unsupported", "handler-reset", "lazy-stale", "pstore-error", "abandon-close", "abandon-partial", "abandon-closewrite"}
 	var out []c04Case
 	for _, m := range modes {
 		out = append(out, c04Case{Mode: m})
@@ -796,6 +819,9 @@ func c04Families(thorough bool) []c04Case {
 	if thorough {
 		for _, st := range []string{"id-never", "id-late", "neg-never", "neg-late"} {
 			for _, m := range modes {
+				if strings.HasPrefix(m, "abandon-") {
+					continue // nothing of the opener waits for the remote in these modes
+				}
 				out = append(out, c04Case{Mode: m, Stall: st})
 			}
 		}
@@ -815,6 +841,8 @@ func c04Families(thorough bool) []c04Case {
 // c04WantStream is what the fault-free run of a family must do (any of the listed results).
 func c04WantStream(mode, stall string) []string {
 	switch mode {
+	case "abandon-close", "abandon-partial", "abandon-closewrite":
+		return []string{"abandoned"}
 	case "pstore-error":
 		return []string{"newstream:pstore-error"}
 	case "unsupported":
